@@ -1290,6 +1290,26 @@ int verify_prefix_ex(struct jls_rd_s *rd, const model_t *m, const char *prop, rn
                     if (!found) { v_violation(prop, "prefix|utc-not-submitted", NULL, "signal %d: returned UTC pair %zu (%lld,%lld) is not an in-order member of what was written", id, k, (long long) c.e[k].sample_id, (long long) c.e[k].timestamp); bad++; break; }
                 }
                 v_count(prop, "utc_checked", (int64_t) c.n);
+                /* iteration from an id: what the full iteration returned at or after it, nothing before it (on a file without damage) */
+                if (c.n && r && !g_prefix_lenient) {
+                    size_t pick = (size_t) rng_below(r, c.n);
+                    int64_t from = c.e[pick].sample_id + rng_range(r, -1, 1);
+                    utc_coll_t k2; memset(&k2, 0, sizeof(k2));
+                    v_api("jls_rd_utc");
+                    int32_t rc2 = jls_rd_utc(rd, (uint16_t) id, from, utc_cbk, &k2);
+                    v_api("");
+                    if (!rc2) {
+                        size_t first = 0; while (first < c.n && c.e[first].sample_id < from) ++first;
+                        int same = k2.n == c.n - first;
+                        for (size_t q = 0; same && q < k2.n; ++q) if (k2.e[q].sample_id != c.e[first + q].sample_id || k2.e[q].timestamp != c.e[first + q].timestamp) same = 0;
+                        if (!same && !errors_ok) {
+                            snprintf(key, sizeof(key), "prefix|utc-from|%s", k2.n > c.n - first ? "more" : k2.n < c.n - first ? "fewer" : "different");
+                            v_violation(prop, key, NULL, "signal %d: jls_rd_utc from %lld delivered %zu pairs, the full iteration holds %zu at or after it", id, (long long) from, k2.n, c.n - first); bad++;
+                        }
+                        v_count(prop, "utc_from_checked", 1);
+                    }
+                    free(k2.e);
+                }
             } else v_count(prop, "utc_iteration_errors", 1);
             free(c.e);
         }
